@@ -659,7 +659,7 @@ RCP<const Number> RealMPFR::rpowreal(const Complex &other) const
  * */
 RCP<const Number> RealMPFR::rpowreal(const RealDouble &other) const
 {
-    if (mpfr_cmp_si(i.get_mpfr_t(), 0) < 0) {
+    if (other.is_negative()) {
 #ifdef HAVE_SYMENGINE_MPC
         mpc_class t(get_prec()), s(get_prec());
         mpc_set_d(t.get_mpc_t(), other.i, MPFR_RNDN);
